@@ -89,7 +89,7 @@ def main():
                 "engine": "goacheck",
                 "level_claimed": {"category": "other", "text": text, "design_ref": ref},
                 "level_note": TRUST,
-                "technique": "static analysis: " + tech,
+                "technique": "static analysis: " + tech + "; plus property-independent deviance lints (control-flow slips, sibling-field parity, name roles, tag and argument-name agreement, copy completeness, template chains) over the functions and templates of the property's anchor files, each lint self-tested on an embedded positive example",
             })
         else:
             na.append({"property_id": pid, "reason": NA.get(pid, PENDING_REASON)})
